@@ -53,6 +53,12 @@ def make_cases(rng, tier):
     for lit in ["0.0000000005", "1e-10", "1e-300"]:
         cases.append(ret_case(cid, emath(mk_mbin("/", matom(const(kint(1))), matom(const(kreal(lit))))), [])); cid += 1
         cases.append(ret_case(cid, emath(mk_mbin("/", matom(const(kreal("3.0"))), mk_mbin("*", matom(const(kreal(lit))), matom(const(kreal(lit)))))), [])); cid += 1
+    # integer literals are DECIMAL whatever their spelling: leading zeros, digits 8 and 9 after a zero
+    for (z, text) in [(10, "010"), (8, "008"), (19, "0019"), (-100, "-0100"), (0, "00"), (17, "017"), (7, "0000007")]:
+        cases.append(ret_case(cid, emath(matom(const(kint(z, text)))), [])); cid += 1
+        cases.append(ret_case(cid, emath(mk_mbin("+", matom(const(kint(z, text))), matom(const(kint(5))))), [])); cid += 1
+        cases.append(ret_case(cid, mk_ecmp("==", emath(matom(const(kint(z, text)))), emath(matom(const(kint(z))))), [])); cid += 1
+    cases.append(ret_case(cid, emath(mk_mbin("+", matom(const(kreal("1.5"))), matom(const(kint(10, "010"))))), [])); cid += 1
     for bf in ["+0", "-0"]:
         cases.append(ret_case(cid, flat_to_tree([var("a"), var("b")], ["/"]), [inj_val("a", tv_int("i64", 5)), inj_val("b", {"t": "f64", "c": bf})])); cid += 1
     # (d) metadata constants
